@@ -4,9 +4,11 @@ from xvlib import log
 from props.common import *
 import props.reclcommon as rc
 
-LEVEL = 'exploration'
-SFX_QUICK = ['_hp', '_hp1', '_hpd', '_he']
-SFX_ALL = SFX_QUICK + ['_hp2', '_he1', '_hed']
+THEOREM_NOTES = {
+    'scope': 'the theorems are about an executable model of the per-thread slot pool (free list threaded through the slots, hint, static / dynamic blocks) and of the guard_ptr operations on top of it, for hazard_pointer and hazard_eras, for every K >= 1, every number of guards and every operation sequence: invariant (free list = exactly the unheld slots, distinct slots per guard, held slot contains the guard object, a guard has a slot iff its pointer is non-null), an acquisition throws iff K slots are held by guards with non-null pointers, a throw leaves all other guards unchanged and the asking guard empty, reset / move / copy slot accounting, no leak, dynamic strategy never throws. Tie: differential run of random operation sequences on the model (vm_compute inside Coq) and on the real guard_ptrs (slot indices, protected sets, free lists compared line by line). The multi-threaded part (scans seeing the protected objects) is covered by the search',
+}
+SFX_QUICK = ['_hp', '_hp1', '_hpd', '_he', '_he1']
+SFX_ALL = SFX_QUICK + ['_hp2', '_hed']
 def harnesses(tier):
     return rc.harnesses('thorough', only=(SFX_ALL if tier == 'thorough' else SFX_QUICK))
 HARNESSES = harnesses('quick')
@@ -38,7 +40,22 @@ def run(ctx):
     rng, tier = ctx['rng'], ctx['tier']
     thorough = tier == 'thorough'
     n = 600 if thorough else 120
-    import os
+    import os, sys, re
+    # ---- tie: differential run model vs real guard_ptrs (hazard_pointer, hazard_eras)
+    tie = None
+    for he in (False, True):
+        cmd = [sys.executable, os.path.join(X.VERIF, 'tools', 'hpslots_diff.py'), str(ctx['seed']), str(400 if thorough else 120)] + (['--he'] if he else [])
+        drc, out, err = X.sh(cmd, timeout=1500)
+        label = 'heslots' if he else 'hpslots'
+        m = re.search(r'(\d+) fixed \+ (\d+) random sequences \((\d+) operations, (\d+) exhausted', out)
+        ctx['cov'].setdefault('differential', {})[label] = {'rc': drc, 'sequences': (int(m.group(1)) + int(m.group(2))) if m else 0, 'operations': int(m.group(3)) if m else 0, 'exhausted_outcomes': int(m.group(4)) if m else 0}
+        if m:
+            ctx['cov']['evaluations'] = ctx['cov'].get('evaluations', 0) + int(m.group(1)) + int(m.group(2))
+            ctx['cov']['traces_validated_against_impl'] = ctx['cov'].get('traces_validated_against_impl', 0) + int(m.group(1)) + int(m.group(2))
+        log('differential[%s]: rc=%d %s' % (label, drc, (out.strip().splitlines() or ['?'])[-1][:200] if drc == 0 else out.strip()[:400]))
+        if drc != 0 and tie is None:
+            cm = re.search(r'case:\n(.*)', out, re.S)
+            tie = {'kind': 'correspondence', 'detail': '%s: slot-pool model and the real guard_ptrs disagree: %s' % (label, out.strip()[:600]), 'case': cm.group(1)[:2000] if cm else ''}
     for name, H in sorted(ctx['H'].items()):
         K = rc.K_of(name)
         jobs = []
@@ -65,5 +82,14 @@ def run(ctx):
         jobs.append((cfg, [['copy 1 2', 'hold 0 0', 'deref 0', 'drop 0', 'hold 1 0', 'deref 0']], 'opseq', 1, ctx['seed'], ()))
         jobs.append((cfg, [['hold 0 0', 'copy 0 1', 'repl 0', 'holdeq 0 1', 'deref 0', 'drop 1', 'deref 0', 'drop 0', 'hold 0 1']], 'opseq', 1, ctx['seed'], ()))
         jobs.append((cfg, [['hold 0 0', 'copy 0 1', 'repl 1', 'holdeq 1 1', 'drop 1', 'deref 0', 'repl 0', 'deref 0']], 'opseq', 1, ctx['seed'], ()))
+        if K:
+            # exhaustion in the middle of acquire_if_equal / acquire / copy on a guard that SHARES its slot (hazard eras) or owns one,
+            # with the other K-1 slots held by guards of other eras: the throwing guard must end up empty, every other guard keeps protecting
+            fill = []
+            for i in range(K - 1):
+                fill += ['repl 1', 'hold 1 %d' % (2 + i)]
+            for acq in ('holdeq 1 1', 'hold 1 1'):
+                jobs.append((cfg, [['hold 0 0', 'copy 0 1'] + fill + ['repl 1', acq, 'drop 1', 'deref 0', 'repl 0', 'deref 0', 'drop 0', 'hold 0 0', 'deref 0']], 'opseq', 1, ctx['seed'], ()))
+                jobs.append((cfg, [['hold 0 0', 'copy 0 1'] + fill + ['repl 1', acq, 'copy 0 1', 'drop 1', 'deref 0', 'repl 0', 'deref 0']], 'opseq', 1, ctx['seed'], ()))
         do_search(ctx, H, jobs, name, classify=lambda c, h, f, name=name: {'harness': name})
-    return None
+    return tie
